@@ -165,6 +165,8 @@ def remove(ctx):
     if not R.anchor(b, "remove_member", "fn Members::remove_member"):
         return
     eqs = [c for c in b.calls if c.f in ("core::cmp::PartialEq::eq", "core::cmp::PartialEq::ne") and re.search(r"Timestamp|Duration|NTP64", c.self_ty)]
+    if not eqs:
+        return _remove_via_closure(ctx, R, b)
     if not R.require(len(eqs) == 1, "ts-eq", b.where(), "one timestamp equality in remove_member", fail_msg="expected one timestamp equality in remove_member, found %d (>= / <= would let an older identity remove a newer one)" % len(eqs)):
         # also catch ordering compares used instead
         return
@@ -193,6 +195,43 @@ def remove(ctx):
     # operands: stored ts vs actor ts
     o0, o1 = cm.origin_summary(cm.operand_origins(b, c, 0)), cm.origin_summary(cm.operand_origins(b, c, 1))
     R.require(any("ts" in x for x in o0 + o1), "operands", c.where(), "compares member.ts with actor.ts() (%s vs %s)" % (o0, o1))
+
+
+def _remove_via_closure(ctx, R, b):
+    """`self.states.get(&id).map(|member| member.ts == actor.ts()).unwrap_or(false)`: the equality lives in the closure"""
+    F = ctx.F
+    ceqs = [(x, c) for x in F.family(b) if x.kind == "closure" for c in x.calls
+            if c.f in ("core::cmp::PartialEq::eq", "core::cmp::PartialEq::ne") and re.search(r"Timestamp|Duration|NTP64", c.self_ty)]
+    if not R.require(len(ceqs) == 1, "ts-eq", b.where(), "one timestamp equality decides remove_member",
+                     fail_msg="expected one timestamp equality in remove_member, found %d (>= / <= would let an older identity remove a newer one)" % len(ceqs)):
+        return
+    cl, c = ceqs[0]
+    rv = flow.return_truth_table(cl, [c.bb])
+    want_t, want_f = ((True,), (False,)) if c.name() == "eq" else ((False,), (True,))
+    R.require(rv[want_t] == {True} and rv[want_f] == {False}, "closure-returns-compare", c.where(), "the closure answers `same timestamp`", fail_msg="the closure does not return the timestamp equality: %s" % rv)
+    o0, o1 = cm.origin_summary(cm.operand_origins(cl, c, 0)), cm.origin_summary(cm.operand_origins(cl, c, 1))
+    R.require(any("ts" in x for x in o0 + o1), "operands", c.where(), "compares member.ts with actor.ts() (%s vs %s)" % (o0, o1))
+    uw = [u for u in b.calls if re.search(r"Option::<T>::(unwrap_or|is_some_and|map_or|unwrap_or_default)$", u.f) and u.t.get("dty") == "bool"]
+    if not R.require(len(uw) == 1, "flag", b.where(), "one bool flag from states.get(..).map(..)", fail_msg="expected one bool-valued Option combinator in remove_member, found %d" % len(uw)):
+        return
+    u = uw[0]
+    if u.name() == "unwrap_or":
+        k = op_const(u.args[1])
+        R.require(k is not None and k.get("v") == 0, "absent-is-false", u.where(), "an unknown actor yields false", fail_msg="an unknown actor is treated as present")
+    rems = [x for x in b.calls if re.search(r"BTreeMap::<K, V, A>::remove$", x.f)]
+    st = [x for x in rems if _on_field(b, x, "states")]
+    ba = [x for x in rems if _on_field(b, x, "by_addr")]
+    if not (R.anchor(st, "states.remove", "self.states.remove") and R.anchor(ba, "by_addr.remove", "self.by_addr.remove")):
+        return
+    tgt = b.term(u.bb)["tgt"]
+    res = {}
+    for v in (False, True):
+        reach, _ = flow.eval_guard(b, {u.bb: v}, start=tgt, env0={u.dest[0]: v})
+        res[v] = any(x.bb in reach for x in st + ba)
+    R.require(res[True] and not res[False], "remove-iff-equal", u.where(), "entries are removed only when the timestamps are equal (%s)" % res,
+              fail_msg="remove_member removes the entry although the identity timestamps differ: %s" % res)
+    R.require(all(b.can_reach(x.bb, y.bb) or b.can_reach(y.bb, x.bb) for x in st for y in ba), "paired", st[0].where(), "states.remove and by_addr.remove are on the same path",
+              fail_msg="states.remove and by_addr.remove are not on the same path: indexes diverge")
 
 
 # ------------------------------------------------------------------------------------------------ index pairing
@@ -276,7 +315,8 @@ def guarded_removes(ctx, R, bodies=None):
         rems = [c for c in b.calls if re.search(r"BTreeMap::<K, V, A>::remove$", c.f) and _on_field(b, c, "by_addr")]
         for c in rems:
             n += 1
-            eqs = [e for e in b.calls if e.f in ("core::cmp::PartialEq::eq", "core::cmp::PartialEq::ne") and "ActorId" in e.self_ty and "Option" in e.self_ty and b.dominates(e.bb, c.bb)]
+            # `by_addr.get(&addr) == Some(&id)` (Option equality) or `match by_addr.get(&addr) { Some(owner) => *owner == id, None => false }`
+            eqs = [e for e in b.calls if e.f in ("core::cmp::PartialEq::eq", "core::cmp::PartialEq::ne") and "ActorId" in e.self_ty and (b.dominates(e.bb, c.bb) or flow.vdominates(b, e.bb, c.bb) or b.can_reach(e.bb, c.bb))]
             ok = False
             why = "no dominating comparison of by_addr.get(addr) with the actor's id"
             for e in eqs:
@@ -285,8 +325,15 @@ def guarded_removes(ctx, R, bodies=None):
                 if "get" not in src or "by_addr" not in flds:
                     continue
                 good, d = cm.effect_only_when_equal(b, e, [c.bb])
-                if good:
+                # the removal must not be reachable without the comparison having been made and found equal
+                # (entry -> remove avoiding the comparison: only infeasible join paths may remain, hence variant-sensitive)
+                if good and c.bb not in flow.variant_reach(b, 0, no_nodes=(e.bb,)):
                     ok = True
+                elif good:
+                    # `None => false` arm joins the flag: evaluate the flag path-sensitively from the entry with the comparison false
+                    reach, _ = flow.eval_guard(b, {e.bb: (e.name() != "eq")})
+                    if c.bb not in reach:
+                        ok = True
                 else:
                     why = "reachability by comparison outcome: %s" % d
             R.require(ok, "remove-guarded@%s" % fn.rsplit("::", 1)[-1], c.where(), "by_addr.remove(addr) happens only if by_addr[addr] still maps to this actor",
